@@ -68,6 +68,8 @@ def tmpl(I, name, v=2):
         return c(b'ACK [5@0] {x} ') + hole(I, 'm', 1) + c(b'\nvolume: ') + hole(I, 'v', 1) + c(b'\nstate: stop\nOK\n')
     if name == 'listerr':
         return c(b'a: b\nlist_OK\nc: ') + hole(I, 'v', 1) + c(b'\nACK [5@1] {x} ') + hole(I, 'm', 1) + c(b'\n')
+    if name == 'fielderr':      # a single command that fails after partial output (no list): the fields before the ACK are not a frame
+        return c(b'file: ') + hole(I, 'v', 1) + c(b'\nTitle: ') + hole(I, 'w', 1) + c(b'\nACK [50@0] {lsinfo} ') + hole(I, 'm', 1) + c(b'\nOK\n')
     if name == 'two':
         return c(b'a: ') + hole(I, 'v', 1) + c(b'\nOK\nb: c\n') + hole(I, 'e', 3)
     if name == 'okok':
@@ -80,7 +82,7 @@ def tmpl(I, name, v=2):
         return c(b'binary: 20\n') + hole(I, 'p', 2) + c(b'ABCDEFGHIJKLMNOPQR\nOK\nk: v\nOK\n')
     raise KeyError(name)
 
-TEMPLATES_WF = ['field', 'keys', 'field2', 'ack', 'ackthen', 'binary', 'bin2', 'list', 'list4', 'bin0', 'listerr', 'two', 'okok', 'long', 'longbin']
+TEMPLATES_WF = ['field', 'keys', 'field2', 'ack', 'ackthen', 'fielderr', 'binary', 'bin2', 'list', 'list4', 'bin0', 'listerr', 'two', 'okok', 'long', 'longbin']
 
 # ---------------------------------------------------------------------------- sessions
 def run_session(I, flavour, body, cuts, cap, max_receives=4, greeting=GREETING, pending=False, interrupt_at=None):
@@ -144,7 +146,7 @@ def instances_for(prop, tier, seed):
     elif prop == 'C02':
         for tname in TEMPLATES_WF + (['free4'] if q else ['free4', 'free5', 'free6']):
             # the long templates have many split points: their segmentation plans are distributed over several instances (workers)
-            parts = 4 if tname in ('long', 'longbin') else (2 if tname in ('list4', 'two', 'listerr', 'field2', 'bin0', 'ackthen', 'bin2') else 1)
+            parts = 4 if tname in ('long', 'longbin') else (2 if tname in ('list4', 'two', 'listerr', 'field2', 'bin0', 'ackthen', 'fielderr', 'bin2') else 1)
             for part in range(parts):
                 out.append({'t': tname, 'mode': 'splits', 'cap': 8, 'v': 1 if q else 2, 'astep': 3 if q else 1, 'part': part, 'parts': parts})
             if not q:
@@ -165,6 +167,8 @@ def instances_for(prop, tier, seed):
         for n in ((1, 2, 3) if q else (1, 2, 3, 4, 5)):
             out.append({'t': 'greetfree%d' % n, 'flav': 'sync', 'cap': 8})
             out.append({'t': 'greetfree%d' % n, 'flav': 'async', 'cap': 8})
+        out.append({'t': 'greetfreelong', 'flav': 'sync', 'cap': 4096})
+        out.append({'t': 'greetfreelong', 'flav': 'async', 'cap': 4096})
     elif prop == 'C10':
         for tname in TEMPLATES_WF:
             for flav in ('sync', 'async'):
@@ -371,7 +375,14 @@ def comp_eq(a, b):
 def run_c09(P, res, pl):
     t = pl['t']
     def harness(I):
-        if t.startswith('greetfree'):
+        if t == 'greetfreelong':
+            # a long first line with two free bytes (any values: a multi-byte character, a replacement character ...) right before /
+            # across a power-of-two offset: whatever connect does with a rejected or accepted greeting (excerpts in logs, slices)
+            L = [13, 14, 15, 16, 29, 30, 31, 32, 61, 62, 63, 64, 125, 126, 127, 128, 253, 254, 255, 256][I.ctx.choose(20, 'fill')]
+            pre = list(b'OK MPD ') if I.ctx.choose(2, 'prefix') == 0 else list(b'Welcome')
+            greeting = pre + [0x78] * (L - len(pre)) + hole(I, 'g', 2) + list(b'yyy\n')
+            body = []
+        elif t.startswith('greetfree'):
             greeting = hole(I, 'g', int(t[9:]))
             body = []
         else:
